@@ -177,7 +177,9 @@ func newStructDesc(t reflect.Type) (*structDesc, error) {
 	d.initFunc, d.hasInitFunc = eface.(iInitDefault)
 
 	f, ok := t.FieldByName("_unknownFields")
-	if ok && f.Type.Kind() == reflect.Slice && f.Type.Elem().Kind() == reflect.Uint8 {
+	// only a field of t itself: for a field promoted from an embedded struct,
+	// f.Offset is relative to that embedded struct, not to t
+	if ok && len(f.Index) == 1 && f.Type.Kind() == reflect.Slice && f.Type.Elem().Kind() == reflect.Uint8 {
 		d.hasUnknownFields = true
 		d.unknownFieldsOffset = f.Offset
 	}
